@@ -223,6 +223,84 @@ class AddConditionApply(Contract):
         return obj is not inp["self"]
 
 
+ADD_COND_SHAPES = ("a", "a or b", "(a or b)", "(a and b) or (c and d)", "(a) and (b)", "(a or b) and c", "not a", "a and b or c", "((a or b))", " (a) or (b) ", "(a) or b and (c)", "not (a) or (b)",
+                   "1 of a*", "(1 of a*) or (all of them)", "(a or b) and not (c or d)", "((a) or (b)) and ((c) or (d))", "(a)", "a or (b)", "(a) or b", "")
+
+
+@register
+class AddConditionApplyCondition(Contract):
+    """AddConditionTransformation.apply_condition: the rewritten condition text MEANS <name> AND (the previous condition) - NOT <name> AND
+    (...) when negated; for an empty condition just (NOT) <name>. Decided by reading the produced text with the reference reader of the
+    condition grammar (C02 stand-in) on all truth assignments: any spelling with that meaning is accepted"""
+    id = "C12.AddConditionTransformation.apply_condition"
+    target = "sigma.processing.transformations.condition:AddConditionTransformation.apply_condition"
+    props = ("C12", "C02", "C13")
+    cases = tuple((neg, shape) for neg in (False, True) for shape in ADD_COND_SHAPES)
+    assumed = ["concrete condition texts (the listed shapes); the meaning of a text is the one of the reference reader in contracts/c02_bounded.py"]
+
+    def args(self, I, case):
+        neg, shape = case
+        T = SObj(I.E.index.lookup("sigma.processing.transformations.condition:AddConditionTransformation"), {"name": "_cond_x", "negated": neg}, lazy=True)
+        cond = SObj(I.E.index.lookup("sigma.conditions:SigmaCondition"), {"condition": shape}, lazy=True)
+        return {"self": T, "args": [cond], "cond": cond, "case": case}
+
+    def post(self, I, inp, r):
+        import itertools
+        from contracts.c02_bounded import Ref, tokenize, ev_ref
+        neg, shape = inp["case"]
+        got = I.force(inp["cond"].fields["condition"])
+        c = I.ctx
+        c.require(isinstance(got, str), "the condition stays a text")
+        if not isinstance(got, str):
+            return
+        names = ["a", "b", "c", "d", "a2", "_cond_x"]
+        want_text = ("not " if neg else "") + "_cond_x" + (f" and ({shape})" if shape.strip() else "")
+        try:
+            rd = Ref(tokenize(got), names)
+            tg = rd.parse_or()
+            assert rd.peek() is None
+        except Exception:
+            c.require(False, f"the rewritten condition {got!r} is a well-formed condition")
+            return
+        tw = Ref(tokenize(want_text), names).parse_or()
+        bad = None
+        for bits in itertools.product((False, True), repeat=len(names)):
+            env = dict(zip(names, bits))
+            if ev_ref(tg, env) != ev_ref(tw, env):
+                bad = env
+                break
+        c.require(bad is None, f"the rewritten condition {got!r} means {want_text!r} (differs for {bad})")
+
+    def frame_ok(self, I, inp, obj, name):
+        return obj is inp["cond"] and name == "condition"
+
+    def candidates(self):
+        return ({"negated": neg, "shape": shape} for neg in (False, True) for shape in ADD_COND_SHAPES if shape.strip())
+
+    def replay(self, values):
+        if "shape" not in values:
+            return None
+        import itertools
+        from sigma.rule import SigmaRule
+        from sigma.processing.transformations import AddConditionTransformation
+        from contracts.c02_bounded import Ref, tokenize, ev_ref
+        names = ["a", "b", "c", "d", "a2", "_cond_x"]
+        rule = SigmaRule.from_dict({"title": "t", "logsource": {"category": "c"}, "detection": {**{n: {n: 1} for n in names[:5]}, "condition": values["shape"]}})
+        AddConditionTransformation({"x": 1}, name="_cond_x", negated=values["negated"]).apply(rule)
+        got = rule.detection.parsed_condition[0].condition
+        want_text = ("not " if values["negated"] else "") + f"_cond_x and ({values['shape']})"
+        try:
+            tg = Ref(tokenize(got), names).parse_or()
+        except Exception as e:
+            return f"add_condition on the condition {values['shape']!r} writes {got!r}, which is not well-formed"
+        tw = Ref(tokenize(want_text), names).parse_or()
+        for bits in itertools.product((False, True), repeat=len(names)):
+            env = dict(zip(names, bits))
+            if ev_ref(tg, env) != ev_ref(tw, env):
+                return f"add_condition{' (negated)' if values['negated'] else ''} on the condition {values['shape']!r} writes {got!r}, which does not mean {want_text!r}: they differ for {env}"
+        return None
+
+
 FLD = "sigma.processing.transformations.fields"
 
 
